@@ -1737,11 +1737,13 @@ class Bag(DaskMethodsMixin):
 
 def accumulate_part(binop, seq, initial, is_first=False):
     if initial is no_default:
+        # No value to carry yet: no ``initial`` was given and all previous
+        # partitions were empty
         res = list(accumulate(binop, seq))
-    else:
-        res = list(accumulate(binop, seq, initial=initial))
+        return res, res[-1] if res else no_default
+    res = list(accumulate(binop, seq, initial=initial))
     if is_first:
-        return res, res[-1] if res else [], initial
+        return res, res[-1]
     return res[1:], res[-1]
 
 
